@@ -763,6 +763,21 @@ func (m *mappedFile) newCounter(name string) (v *atomic.Uint64, m1 *mappedFile, 
 		// Check new elements in chain for duplicates.
 		old := head
 		head = m.load32(headOff)
+		if limit := m.load32(m.hdrLen + limitOff); int64(limit) > int64(len(m.mapping.Data)) {
+			// Another process has extended the file, so the new chain
+			// elements may lie beyond our mapping. Re-map to see them,
+			// and re-derive the pointers to our own record.
+			newM, err := m.extend(limit)
+			if err != nil {
+				return nil, nil, err
+			}
+			if m != orig {
+				m.close()
+			}
+			m = newM
+			next = (*atomic.Uint32)(unsafe.Pointer(&m.mapping.Data[start+12]))
+			v = (*atomic.Uint64)(unsafe.Pointer(&m.mapping.Data[start]))
+		}
 		for off := head; off != old; {
 			ename, enext, v, ok := m.entryAt(off)
 			if !ok {
